@@ -606,6 +606,80 @@ def observe_C18_strategy(w):
     return observe_C18(w)
 
 
+# ------------------------------------------------------------------------------------------------ C20 (OBIS)
+def _grp(g):
+    return tuple(g)
+
+
+def judge_C20(w):
+    from han import obis as O
+    k = w["sub"]
+    try:
+        if k == "parse":
+            exp = _grp(w["expect"])
+            got = O.to_obis_tupple(w["text"])
+            if tuple(got) != exp:
+                return {"signature": "parse-groups-differ", "detail": f"to_obis_tupple({w['text']!r}) = {got}, expected {exp}"}
+            o = O.Obis.from_string(w["text"])
+            if o.as_tupple() != exp or (o.a, o.b, o.c, o.d, o.e, o.f) != exp:
+                return {"signature": "parse-groups-differ", "detail": f"Obis.from_string({w['text']!r}).as_tupple() = {o.as_tupple()}, expected {exp}"}
+            cdr = f"{exp[2]}.{exp[3]}.{exp[4]}"
+            if o.to_group_cdr_str() != cdr:
+                return {"signature": "cde-string-differs", "detail": f"to_group_cdr_str() = {o.to_group_cdr_str()!r}, expected {cdr!r}"}
+        elif k == "malformed":
+            try:
+                got = O.to_obis_tupple(w["text"])
+            except ValueError:
+                return None
+            return {"signature": "malformed-accepted", "detail": f"to_obis_tupple({w['text']!r}) = {got} although the string contains no digit.digit"}
+        elif k == "eq":
+            a, b = O.Obis(_grp(w["a"])), O.Obis(_grp(w["b"]))
+            same = _grp(w["a"]) == _grp(w["b"])
+            if (a == b) != same:
+                return {"signature": "eq-differs-from-group-equality", "detail": f"Obis({w['a']}) == Obis({w['b']}) is {a == b}"}
+            if same and hash(a) != hash(b):
+                return {"signature": "equal-objects-hash-differently", "detail": f"groups {w['a']}"}
+        elif k == "eqstr":
+            a = O.Obis(_grp(w["a"]))
+            exp = _grp(w["a"]) == _grp(w["expect"]) if w["expect"] is not None else False
+            if (a == w["text"]) != exp:
+                return {"signature": "eq-with-string-differs", "detail": f"Obis({w['a']}) == {w['text']!r} is {a == w['text']}, expected {exp}"}
+        elif k == "roundtrip":
+            g = _grp(w["groups"])
+            s = O.Obis(g).to_reduced_str()
+            try:
+                back = O.Obis.from_string(s).as_tupple()
+            except ValueError as e:
+                return {"signature": "roundtrip-unparsable", "detail": f"Obis({g}).to_reduced_str() = {s!r} does not parse: {e}"}
+            if back != g:
+                return {"signature": "roundtrip-groups-differ", "detail": f"Obis({g}).to_reduced_str() = {s!r} parses to {back}"}
+    except Exception as e:
+        return {"signature": "exception:" + exc_signature(e), "detail": repr(e)}
+    return None
+
+
+def observe_C20(w):
+    from han import obis as O
+    k = w["sub"]
+    if k in ("parse", "malformed"):
+        try:
+            return list(O.to_obis_tupple(w["text"]))
+        except ValueError:
+            return "ValueError"
+    if k == "eq":
+        return bool(O.Obis(_grp(w["a"])) == O.Obis(_grp(w["b"])))
+    if k == "eqstr":
+        return bool(O.Obis(_grp(w["a"])) == w["text"])
+    if k == "roundtrip":
+        return O.Obis(_grp(w["groups"])).to_reduced_str()
+    return None
+
+
+for _k in ("parse", "malformed", "eq", "eqstr", "roundtrip"):
+    globals()["judge_C20_" + _k] = judge_C20
+    globals()["observe_C20_" + _k] = observe_C20
+
+
 # ------------------------------------------------------------------------------------------------ dispatch
 def observe(prop, w):
     fn = globals().get("observe_" + prop + ("_" + w["sub"] if w.get("sub") else ""))
